@@ -38,7 +38,8 @@ ENTITIES = {
                   ("opt_pts", agg(ref("POINT", "DPOINT")), True, False),
                   ("sels", agg(NUM_OR_LABEL), False, False),
                   ("bins", agg(BIN), False, False),
-                  ("logs", agg(LOGICAL), False, False)]),
+                  ("logs", agg(LOGICAL), False, False),
+                  ("esels", agg(ENT_SEL), False, False)]),
     "HOLDER": ([], [("v", NUM_OR_LABEL, False, False), ("e", ENT_SEL, False, False), ("m", MIXED_SEL, True, False)]),
     "BASE": ([], [("id", INT, False, False)]),
     "LEFTY": (["BASE"], [("l", STR, False, False)]),
